@@ -26,7 +26,10 @@ Payloads == { <<"LT", "b", "GT">>, <<"AMP", "APOS", "QUOT", "PLAIN">>, <<"AMP", 
 Starts == {"lit", "bqlit", "ctxstr", "ctxhtml", "htmler", "rawlit", "rawctx", "field", "htmlfield", "mapel", "strsel", "anyel", "helper", "strs", "anys",
            "strsloop", "htmlsloop", "anysloop", "maploop", "htmlerstringer",
            \* a value of a DEFINED string type (type Role string): what it prints is not specified here -- but never its characters raw
-           "definedstr"}
+           "definedstr",
+           \* the payload is the first element of a Go slice whose second element is that slice's own one-element prefix (same
+           \* storage, other length -- not a slice that contains itself): the payload is printed twice
+           "prefixself"}
 Trusted(s) == s \in {"ctxhtml", "htmler", "rawlit", "rawctx", "htmlfield", "htmlsloop", "htmlerstringer"}
 \* starts where the payload is the loop variable of a for over a typed Go collection of the context:
 \* the whole route (steps and sink) then sits in that loop's body
@@ -40,6 +43,7 @@ StartExpr(s, P) ==
     [] s = "htmler"  -> Id("hr")
     [] s = "htmlerstringer" -> Id("hrs")              \* a value that is an HTMLer AND a fmt.Stringer (with other text)
     [] s = "definedstr" -> Id("ds")
+    [] s = "prefixself" -> Id("pa")
     [] s = "rawlit"  -> Call("raw", <<Str(P)>>)
     [] s = "rawctx"  -> Call("raw", <<Id("s")>>)
     [] s = "field"   -> Dot(Id("u"), "Name")
@@ -52,7 +56,7 @@ StartExpr(s, P) ==
     [] s = "anys"    -> Id("ys")
     [] OTHER         -> Id("w")                        \* the loop variable (LoopOver)
 
-DataFor(P) == [ds |-> [t |-> "opq", kind |-> "defined_str", s |-> P], s |-> S(P), h |-> H(P), h2 |-> H(<<"LT", "i", "GT">>), hr |-> HTMLer(P), hrs |-> [t |-> "html", s |-> P, go |-> "htmlerstringer"],
+DataFor(P) == [pa |-> [t |-> "arr", xs |-> <<S(P), A(<<S(P)>>)>>, go |-> "prefixself"], ds |-> [t |-> "opq", kind |-> "defined_str", s |-> P], s |-> S(P), h |-> H(P), h2 |-> H(<<"LT", "i", "GT">>), hr |-> HTMLer(P), hrs |-> [t |-> "html", s |-> P, go |-> "htmlerstringer"],
                hs2 |-> AT(<<H(<<"o", "l", "d">>)>>, "htmls"), hm |-> [t |-> "map", m |-> [k |-> H(<<"o", "l", "d">>)], go |-> "htmlmap"], u |-> Rec([Name |-> S(P), Html |-> H(P)]),
                m |-> M([k |-> S(P)]), xs |-> AT(<<S(P)>>, "strs"), ys |-> A(<<S(P)>>), hs |-> AT(<<H(P)>>, "htmls")]
 
